@@ -107,7 +107,14 @@ func (s *Solver) restart() {
 
 // reset forgets everything (new instance).
 func (s *Solver) reset() {
-	s.restart()
+	if s.cmd == nil || s.kind == "cvc5" {
+		s.restart()
+		return
+	}
+	s.stack = nil
+	s.sent = make(map[int]bool)
+	s.send("(reset)\n(set-option :global-decls true)\n")
+	s.send(fmt.Sprintf("(set-option :timeout %d)\n", s.timeout))
 }
 
 func (s *Solver) send(txt string) {
